@@ -47,6 +47,7 @@ WriteBack(h, val) == LET L == Leaves(val) IN [r \in DOMAIN h |-> IF \E x \in L :
 MkObs(op, M, M2, c, out, after, X) ==
   [op |-> op, tid |-> 1, model0 |-> Models[M.id], model |-> M, model_after |-> M2,
    teams |-> c.teams, ranks |-> c.ranks, scores |-> c.scores, tau |-> c.tau, limit |-> c.limit,
+   ranks_after |-> c.ranks, scores_after |-> c.scores,
    out |-> out, after |-> after, group |-> "", role |-> "", gprop |-> "", aux |-> PNone, X |-> X]
 
 OkOut(v)    == [kind |-> "ok", exc |-> "", value |-> v]
